@@ -71,6 +71,35 @@ Definition scase_prop_ok_r (c : scase) (r : presult) : bool :=
 Definition scase_check (c : scase) : bool * bool :=
   let r := client_parse (s_raw c) (s_eof c) false in (scase_model_ok_r c r, scase_prop_ok_r c r).
 
+(* ---- error pages of concurrently failing requests ---- *)
+Record pgcase := mkpgcase {
+  g_raw : str;      (* every byte the client received *)
+  g_target : str    (* host:port this client asked for (refused); distinct per client *)
+}.
+Fixpoint header_value (name : str) (hs : list (str * str)) : option str :=
+  match hs with
+  | [] => None
+  | (k, v) :: r => if eq_fold k name then Some v else header_value name r
+  end.
+(* the response is a complete error response whose X-Forwarder-Error names THIS client's target, and whose page (body)
+   is the page of that same error: it ends with the error text of the header followed by LF, and names the target *)
+Definition pgcase_check (c : pgcase) : bool * bool :=
+  let r := client_parse (g_raw c) false false in
+  let ok :=
+    is_complete r && (500 <=? pstatus r) && (pstatus r <=? 599) && (pframing r =? 1) &&
+    match header_value error_header (phdr r) with
+    | Some v =>
+        (* a refused connection (502) names the target in the error text and in the page *)
+        (negb (pstatus r =? 502) || (contains v (g_target c) && contains (pbody r) (g_target c))) &&
+        (* header value = "<proxy name> <error text>": drop the name and the blank *)
+        match cut_byte 32 v with
+        | Some (_, errtext) => has_suffix (pbody r) (errtext ++ [LF])
+        | None => false
+        end
+    | None => false
+    end in
+  (is_complete r, ok).
+
 (* ---- cut sweep ---- *)
 Record fcase := mkfcase {
   f_framing : N;        (* framing of the origin's reply: 1 Content-Length, 2 chunked, 3 close-delimited *)
@@ -87,7 +116,8 @@ Record fcase := mkfcase {
   f_k : N; f_headlen : N; f_replylen : N;   (* cut point, length of the reply's head, of the whole reply *)
   f_client_minor : N;                        (* the client spoke HTTP/1.<minor> *)
   f_closed : bool;                           (* the client's stream ended (FIN or reset) — false: still open when the client gave up *)
-  f_reject : bool                            (* the reply is an upstream proxy's rejection of the transport's CONNECT (relayed via connectError) *)
+  f_reject : bool;                           (* the reply is an upstream proxy's rejection of the transport's CONNECT (relayed via connectError) *)
+  f_handler : bool                           (* the proxy is served through martian's http.Handler on net/http's server *)
 }.
 
 Definition is_error_response (r : presult) : bool := has_header error_header r.
@@ -111,6 +141,10 @@ Definition fcase_class_r (c : fcase) (r : presult) : N :=
    HTTP/1.0 client. *)
 Definition fcase_expect (c : fcase) : N :=
   if f_k c <? f_headlen c then 0
+  else if f_handler c then
+    (* net/http's server frames a body of unknown length as chunked for an HTTP/1.1 client and the handler aborts
+       (panic(http.ErrAbortHandler)) when copying the body fails: the terminating chunk is never written *)
+    (if f_framing c =? 3 then (if f_rst c then 2 else 1) else if f_k c =? f_replylen c then 1 else 2)
   else if f_k c =? f_replylen c then 1
   else if f_reject c then 4   (* OnProxyConnectResponse could not read the rejection's body: status and header relayed, body dropped *)
   else if (f_framing c =? 3) || ((f_framing c =? 2) && (f_client_minor c =? 0))
@@ -130,7 +164,7 @@ Definition fcase_prop_ok_r (c : fcase) (r : presult) : bool :=
   | Complete =>
       match prest r with [] => true | _ => false end &&       (* not mixed with anything else *)
       (if is_error_response r
-       then (500 <=? pstatus r) && (pstatus r <=? 599) && (pframing r =? 1)
+       then (500 <=? pstatus r) && (pstatus r <=? 599) && ((pframing r =? 1) || (f_handler c && (pframing r =? 2)))
        else (* the origin's own response: then it must be ALL of it *)
             (pstatus r =? f_up c) &&
             ((str_eqb (pbody r) (f_body c) && (f_full c || (f_sent c =? N.of_nat (length (f_body c))))) ||
